@@ -21,8 +21,15 @@ import sys
 import time
 
 ROOT = os.path.dirname(os.path.dirname(os.path.abspath(__file__)))
+# The registered commands use none of these overrides: REPO is /repo, everything is built under ROOT/build and the
+# evidence goes to ROOT/evidence.  The overrides exist so that the seeded-change regression can run many checks in
+# parallel, each against its own scratch worktree (VERIF_REPO), with its own Go binaries (VERIF_BUILD) and its own
+# evidence / replay directory (VERIF_OUT); the Coq development and the extracted model runner are shared, read-only.
 REPO = os.environ.get("VERIF_REPO", "/repo")
-BUILD = os.path.join(ROOT, "build")
+ALT = REPO != "/repo"
+MBUILD = os.path.join(ROOT, "build")
+BUILD = os.environ.get("VERIF_BUILD", MBUILD)
+OUT = os.environ.get("VERIF_OUT", ROOT)
 COQ = os.path.join(ROOT, "coq")
 THEORIES = os.path.join(COQ, "theories")
 GEN = os.path.join(COQ, "gen")
@@ -65,7 +72,7 @@ def newest_mtime(paths):
 
 def build_model():
     """Extract Run.run (Separate Extraction) and compile ocaml/modelrun.ml with it."""
-    odir = os.path.join(BUILD, "ocaml")
+    odir = os.path.join(MBUILD, "ocaml")
     exe = os.path.join(odir, "modelrun")
     srcs = [os.path.join(THEORIES, f) for f in os.listdir(THEORIES) if f.endswith(".vo")]
     srcs += [os.path.join(GEN, f) for f in os.listdir(GEN) if f.endswith(".vo")] if os.path.isdir(GEN) else []
@@ -85,9 +92,23 @@ def build_model():
     return exe
 
 
+def harness_dir():
+    """the harness module; for a scratch worktree a copy whose go.mod replaces the library with that worktree"""
+    hdir = os.path.join(ROOT, "harness")
+    if not ALT:
+        return hdir
+    cdir = os.path.join(BUILD, "harness")
+    sh(["rm", "-rf", cdir]); os.makedirs(BUILD, exist_ok=True)
+    sh(["cp", "-r", hdir, cdir])
+    gm = os.path.join(cdir, "go.mod")
+    text = open(gm).read().replace("=> /repo", "=> " + REPO)
+    open(gm, "w").write(text)
+    return cdir
+
+
 def build_race_harness():
     """the same harness built with the race detector (needs cgo), used by C18 in concurrent mode"""
-    hdir = os.path.join(ROOT, "harness")
+    hdir = os.path.join(BUILD, "harness") if ALT else os.path.join(ROOT, "harness")
     exe = os.path.join(BUILD, "implrun-race")
     env = dict(GOENV, CGO_ENABLED="1")
     rc, out = sh(["go", "build", "-race", "-tags", "verif", "-o", exe, "./cmd/implrun"], cwd=hdir, env=env, timeout=1800)
@@ -117,6 +138,9 @@ def regen_schema():
     path = os.path.join(GEN, "Schema_gen.v")
     old = open(path).read() if os.path.exists(path) else None
     if old != out:
+        if ALT:
+            # a scratch worktree never rewrites the shared development: the difference itself is reported
+            return "differs"
         open(path, "w").write(out)
         return True
     return False
@@ -124,7 +148,7 @@ def regen_schema():
 
 def build_harness():
     """go build the harness against /repo's working tree (tag verif)."""
-    hdir = os.path.join(ROOT, "harness")
+    hdir = harness_dir()
     sh(["cp", os.path.join(REPO, "go.sum"), os.path.join(hdir, "go.sum")])
     os.makedirs(BUILD, exist_ok=True)
     exe = os.path.join(BUILD, "implrun")
@@ -250,18 +274,20 @@ class Check:
     # ---- setup
     def clear_replays(self):
         import glob
-        for f in glob.glob(os.path.join(ROOT, "replays", self.pid + "-*.json")):
+        for f in glob.glob(os.path.join(OUT, "replays", self.pid + "-*.json")):
             os.unlink(f)
 
     def prepare(self):
         self.implrun = build_harness()
-        keys = os.path.join(BUILD, "pgpkeys.asc")
+        keys = os.path.join(MBUILD, "pgpkeys.asc")
         os.environ["VERIF_PGPKEYS"] = keys
         if not os.path.exists(keys):
             r = run_lines(self.implrun, [("csinit", [keys.encode()])])
             if r != ["ok"]:
                 raise Infra("could not generate the OpenPGP test keys: %r" % r)
         self.schema_changed = regen_schema()
+        if self.schema_changed == "differs":
+            self.broken.append("the struct tags dumped from this tree differ from coq/gen/Schema_gen.v (scratch worktree: the shared development is not rebuilt)")
         rc, out = coq_make()
         self.make_ok = (rc == 0)
         self.make_out = out
@@ -272,7 +298,7 @@ class Check:
         except Infra:
             if self.make_ok:
                 raise
-            self.modelrun = os.path.join(BUILD, "ocaml", "modelrun")
+            self.modelrun = os.path.join(MBUILD, "ocaml", "modelrun")
             if not os.path.exists(self.modelrun):
                 raise
 
@@ -291,7 +317,8 @@ class Check:
             names = re.findall(r"^\s*(?:Theorem|Lemma|Corollary)\s+(\w+)", src, re.M)
             if not f.endswith("w.v"):
                 thms += names             # witness files hold Examples and helper lemmas, not property theorems
-            rc, out = sh(["timeout", "600", "coqc"] + QARGS + [path], cwd=COQ, timeout=700)
+            extra = ["-noglob", "-o", os.path.join(BUILD, f + "o")] if ALT else []     # scratch runs never write into the shared tree
+            rc, out = sh(["timeout", "600", "coqc"] + QARGS + extra + [path], cwd=COQ, timeout=700)
             if rc != 0:
                 ok = False
                 err += out[-2000:]
@@ -439,8 +466,8 @@ class Check:
     # ---- reporting
     def finish(self):
         self.kernel_sample()
-        os.makedirs(os.path.join(ROOT, "evidence"), exist_ok=True)
-        os.makedirs(os.path.join(ROOT, "replays"), exist_ok=True)
+        os.makedirs(os.path.join(OUT, "evidence"), exist_ok=True)
+        os.makedirs(os.path.join(OUT, "replays"), exist_ok=True)
         lines = []
         # known findings: replayed by the property module -> self.known_hits
         for k in self.known:
@@ -456,14 +483,14 @@ class Check:
         for st in sorted({v["stream"] for v in weak}):
             self.broken.append("correspondence:" + st)
         for idx, v in enumerate(self.violations[:5]):
-            path = os.path.join(ROOT, "replays", "%s-%d.json" % (self.pid, idx))
+            path = os.path.join(OUT, "replays", "%s-%d.json" % (self.pid, idx))
             v = dict(v, property=self.pid, seed=self.seed, tier=self.tier)
             with open(path, "w") as f:
                 json.dump(v, f, indent=1)
             lines.append("VIOLATION property=%s replay=%s" % (self.pid, path))
             nviol += 1
         if not self.violations and self.broken:
-            path = os.path.join(ROOT, "replays", "%s-unchecked.json" % self.pid)
+            path = os.path.join(OUT, "replays", "%s-unchecked.json" % self.pid)
             with open(path, "w") as f:
                 json.dump({"property": self.pid, "seed": self.seed, "tier": self.tier,
                            "no_longer_checks": self.broken, "proof_error": self.proof.get("error", "")[-3000:],
@@ -506,7 +533,7 @@ class Check:
             "violations": nviol,
         }
         ev["coverage"].update(self.extra)
-        with open(os.path.join(ROOT, "evidence", self.pid + ".json"), "w") as f:
+        with open(os.path.join(OUT, "evidence", self.pid + ".json"), "w") as f:
             json.dump(ev, f, indent=1, default=str)
         for l in lines:
             print(l)
